@@ -386,7 +386,7 @@ func sig(in Input, tr []Ev) string {
 		}
 		// stale-delete: the failing return of an operation comes after another goroutine
 		// published an entry for the same text during the operation
-		if w.failret >= 0 {
+		if w.failret >= 0 && !modelGuard { // fixed by /repo 3544058: no longer a known finding
 			for pos := w.start; pos < w.failret; pos++ {
 				if e := tr[pos]; e.K == "prepcall" && e.T != w.t && e.Q == w.op.Q {
 					found["stale-delete"] = true
